@@ -47,6 +47,19 @@ pub fn key_of(i: usize) -> Key {
     Key { rank: ((i * 37 + 11) % 257) as u16, id: i as u16 }
 }
 
+/// A second alternative name type: `i64` at the extremes of its range (order by value is unrelated
+/// to insertion order; negative values; values that do not survive a round trip through f64 or a
+/// narrower integer).
+pub fn int_key_of(i: usize) -> i64 {
+    const SPECIAL: [i64; 8] = [i64::MIN, -1, 0, i64::MAX, 1, -(1 << 53) - 1, (1 << 53) + 1, i32::MIN as i64 - 1];
+    if i < SPECIAL.len() {
+        SPECIAL[i]
+    } else {
+        // odd multiplier: a bijection on i64; the few special values are not of this form for i < 2^16
+        (i as i64).wrapping_mul(0x9E37_79B9_7F4A_7C15u64 as i64)
+    }
+}
+
 pub trait Name: Hash + Eq + Clone + Ord + Display + Debug + Send + Sync {}
 impl<T: Hash + Eq + Clone + Ord + Display + Debug + Send + Sync> Name for T {}
 
@@ -275,17 +288,29 @@ pub fn check_name_type_independence(ng: &NormGraph, group: Group, out: &mut Outc
             return;
         }
     };
-    out.api_calls += (ts.len() + tk.len()) as u64;
-    for (a, b) in ts.iter().zip(tk.iter()) {
-        debug_assert_eq!(a.api, b.api);
-        let base = a.api.split('[').next().unwrap_or(&a.api).to_string();
-        if a.s != b.s {
-            out.fail(format!("{}/name_type/structure_differs", base), format!("{}: String names give {} but a user-defined name type (lossy Display, colliding Hash) gives {}", a.api, trunc(&a.s), trunc(&b.s)));
+    let ti = match guard(|| {
+        let gi = build_generic::<i64>(ng, &int_key_of);
+        table(&gi, ng, &int_key_of, group)
+    }) {
+        Ok(t) => t,
+        Err(p) => {
+            out.fail(format!("name_type[{:?}]/panic/{}", group, panic_class(&p)), format!("with i64 names at the extremes of the range: {}", p));
             return;
         }
-        if a.f.len() != b.f.len() || a.f.iter().zip(&b.f).any(|(x, y)| !(approx(*x, *y, 1e-9, 1e-12) || (x.is_nan() && y.is_nan()) || x == y)) {
-            out.fail(format!("{}/name_type/values_differ", base), format!("{}: String names give {:?} but a user-defined name type gives {:?}", a.api, a.f, b.f));
-            return;
+    };
+    out.api_calls += (ts.len() + tk.len() + ti.len()) as u64;
+    for (what, other) in [("a user-defined name type (lossy Display, colliding Hash)", &tk), ("i64 names at the extremes of the range", &ti)] {
+        for (a, b) in ts.iter().zip(other.iter()) {
+            debug_assert_eq!(a.api, b.api);
+            let base = a.api.split('[').next().unwrap_or(&a.api).to_string();
+            if a.s != b.s {
+                out.fail(format!("{}/name_type/structure_differs", base), format!("{}: String names give {} but {} gives {}", a.api, trunc(&a.s), what, trunc(&b.s)));
+                return;
+            }
+            if a.f.len() != b.f.len() || a.f.iter().zip(&b.f).any(|(x, y)| !(approx(*x, *y, 1e-9, 1e-12) || (x.is_nan() && y.is_nan()) || x == y)) {
+                out.fail(format!("{}/name_type/values_differ", base), format!("{}: String names give {:?} but {} gives {:?}", a.api, a.f, what, b.f));
+                return;
+            }
         }
     }
 }
